@@ -170,7 +170,7 @@ FLOAT_POOL = [0.0, -0.0, 1.0, -1.0, 1.5, -2.25, 0.1, 1e22, 1e-7, 5e-324, 1e-320,
 DEC_POOL = ["0", "-0", "1", "1.0", "1.00", "-1.50", "1E+400", "-1.5E-400", "123456789.123456789", "0.000001",
             "1E+2", "9" * 40, "0E-10", "3.14"]
 PATTERN_POOL = ["a+", "^x$", "[0-9]{2}", "", "1", "(?:a|b)", "\\d+\\s*", "null", "[1]"]
-PATH_POOL = ["a/b", "/abs/x", "1", "None", ".", "rel/p.txt", "x y/z", "null", "[1]", "1.5", "true", "a,b"]
+PATH_POOL = ["a/b", "/abs/x", "1", "None", ".", "rel/p.txt", "x y/z", "null", "[1]", "1.5", "true", "a,b", "~/data/f.txt", "~", "~nobody-such-user/x"]
 WINPATH_POOL = ["C:/x/y", "a\\b", "1", "None", "\\\\srv\\share\\f", "true"]
 
 UTC = datetime.timezone.utc
